@@ -54,6 +54,8 @@ def systematic(tier: str) -> list[dict]:
     progs += list(P.fam_pad())
     if tier == "quick":
         progs = [p for k, p in enumerate(progs) if k % 3 == 0]
+    # every placement pattern of advanced items (deterministic; half of them in quick)
+    progs += [p for k, p in enumerate(P.fam_advanced_patterns()) if tier != "quick" or k % 2 == 0]
     for p in progs:
         p["outs"] = {"out0": p["outs"]["out"]}
     # (never thinned out: special values at chosen positions of each operand)
@@ -63,7 +65,7 @@ def systematic(tier: str) -> list[dict]:
     for p in P.fam_concat_empty():
         p["outs"] = {("out0" if k == "out" else k): v for k, v in p["outs"].items()}
         progs.append(p)
-    for p in P.fam_boolarith():
+    for p in [*P.fam_boolarith(), *P.fam_same_buffer()]:
         p["outs"] = {("out0" if k == "out" else k): v for k, v in p["outs"].items()}
         progs.append(p)
     # how scalar constants are rendered in C (never thinned out).  Left out: floor
